@@ -295,14 +295,15 @@ BootShape == (Family = "boot" /\ ~BootTable(cfg).err) =>
 SrvAlphabet == {<<h, IF h = HC THEN FALSE ELSE TRUE, p>> : h \in {HA, HC, HD}, p \in {10, 20, -1}}
 SrvLists(n) == UNION {[1..k -> SrvAlphabet] : k \in 0..n}
 KeySets == {{}, {"wow"}, {"wow", "wow_classic"}, {"wow", "wowt"}, {"wowt", "wow_classic"}, {""}, {"us", "wow", "wowt"}}
+FbBuiltin == [k |-> "builtin", s |-> <<>>]
 MkCfgs == {[servers |-> s, keys |-> k, fb |-> f] : s \in SrvLists(2), k \in (IF Wide THEN KeySets ELSE {{"wow", "wow_classic"}}),
-                                                   f \in {"builtin"} \cup {<<x>> : x \in SrvAlphabet} \cup (IF Wide THEN {<<>>} ELSE {})}
-          \cup {[servers |-> s, keys |-> k, fb |-> "builtin"] : s \in SrvLists(1), k \in KeySets}
+                                                   f \in {FbBuiltin} \cup {[k |-> "custom", s |-> <<x>>] : x \in SrvAlphabet} \cup (IF Wide THEN {[k |-> "custom", s |-> <<>>]} ELSE {})}
+          \cup {[servers |-> s, keys |-> k, fb |-> FbBuiltin] : s \in SrvLists(1), k \in KeySets}
 MkQueries(c) ==
   <<[q |-> "stats"], [q |-> "validate"], [q |-> "primary"], [q |-> "getpath", p |-> "wow"], [q |-> "getpath", p |-> "wow_classic_ptr"],
     [q |-> "getpath", p |-> "w"], [q |-> "getpath", p |-> "us"], [q |-> "runtime"],
-    IF c.fb = "builtin" THEN [q |-> "merge", fbk |-> "fallback"]
-    ELSE [q |-> "merge", fbk |-> "custom", fb |-> [servers |-> c.fb, paths |-> << <<"wow", "fb/wow">>, <<"zz", "fb/zz">> >>]],
+    IF c.fb.k = "builtin" THEN [q |-> "merge", fbk |-> "fallback"]
+    ELSE [q |-> "merge", fbk |-> "custom", fb |-> [servers |-> c.fb.s, paths |-> << <<"wow", "fb/wow">>, <<"zz", "fb/zz">> >>]],
     [q |-> "cfgupd", base |-> "high_availability"], [q |-> "cfgfrom", base |-> "blizzard_only"],
     [q |-> "cfgrm", base |-> "default", hosts |-> <<HA, "casc.wago.tools", "nobody.example.org">>],
     [q |-> "cfgrm", base |-> "community_only", hosts |-> <<"casc.wago.tools", "cdn.arctium.tools", "archive.wow.tools">>],
@@ -318,24 +319,25 @@ LogSrv(s) == <<s[1], IF s[2] THEN 1 ELSE 0, IF s[3] < 0 THEN HugeP ELSE s[3]>>
 LogSrvs(xs) == [i \in 1..Len(xs) |-> LogSrv(xs[i])]
 BuiltinFb == << <<"cdn.arctium.tools", 1, 100>>, <<"casc.wago.tools", 1, 110>>, <<"cdn.marlam.in", 1, 120>> >>
 SatP(x) == IF x >= HugeP THEN HugeP ELSE x
+SatAdd(a, b) == IF a >= HugeP \/ b >= HugeP THEN HugeP ELSE SatP(a + b)
 MaxPrio(xs) == IF xs = <<>> THEN -1 ELSE CHOOSE x \in {xs[i][3] : i \in 1..Len(xs)} : \A y \in {xs[i][3] : i \in 1..Len(xs)} : x >= y
 \* the merge as documented, with saturating priority arithmetic
 MergeIdeal(off, fb) ==
-  LET offset == IF off = <<>> THEN 1000 ELSE SatP(MaxPrio(off) + 100)
+  LET offset == IF off = <<>> THEN 1000 ELSE SatAdd(MaxPrio(off), 100)
       added == DedupHosts(FilterSeq(fb, LAMBDA s : s[1] \notin HostsOf(off)), {})
-  IN StableSortBy("prio", off \o [i \in 1..Len(added) |-> <<added[i][1], added[i][2], SatP(added[i][3] + offset)>>])
+  IN StableSortBy("prio", off \o [i \in 1..Len(added) |-> <<added[i][1], added[i][2], SatAdd(added[i][3], offset)>>])
 \* as coded: u32 arithmetic with overflow checks
 MergePanics(off, fb) ==
   LET added == DedupHosts(FilterSeq(fb, LAMBDA s : s[1] \notin HostsOf(off)), {}) IN
   (off # <<>> /\ MaxPrio(off) >= HugeP) \/ (\E i \in 1..Len(added) : added[i][3] >= HugeP)
 MergeEvent(c, panics) ==
   LET off == LogSrvs(c.servers)
-      fb  == IF c.fb = "builtin" THEN BuiltinFb ELSE LogSrvs(c.fb)
+      fb  == IF c.fb.k = "builtin" THEN BuiltinFb ELSE LogSrvs(c.fb.s)
       ks  == SetToSeqX(c.keys)
       bp  == [i \in 1..Len(ks) |-> <<ks[i], "tpr/" \o ks[i]>>]
-      fp  == IF c.fb = "builtin" THEN << <<"wow", "tpr/wow">>, <<"wowt", "tpr/wowt">> >> ELSE << <<"wow", "fb/wow">>, <<"zz", "fb/zz">> >>
+      fp  == IF c.fb.k = "builtin" THEN << <<"wow", "tpr/wow">>, <<"wowt", "tpr/wowt">> >> ELSE << <<"wow", "fb/wow">>, <<"zz", "fb/zz">> >>
       op  == SetToSeqX({<<bp[i][1], bp[i][2]>> : i \in 1..Len(bp)} \cup {<<fp[i][1], fp[i][2]>> : i \in {j \in 1..Len(fp) : fp[j][1] \notin c.keys}})
-      base == IF c.fb = "builtin" THEN [op |-> "merge", fbk |-> "fallback"] ELSE [op |-> "merge", fbk |-> "custom", fb |-> [servers |-> c.fb]]
+      base == IF c.fb.k = "builtin" THEN [op |-> "merge", fbk |-> "fallback"] ELSE [op |-> "merge", fbk |-> "custom", fb |-> [servers |-> c.fb.s]]
   IN [b |-> [servers |-> off, paths |-> {<<bp[i][1], bp[i][2]>> : i \in 1..Len(bp)}, pref |-> <<>>, official |-> FALSE],
       e |-> McMerge(base, [res |-> IF panics THEN [k |-> "panic"]
                                    ELSE [k |-> "ok", fb_valid |-> TRUE, fbv |-> [servers |-> fb, paths |-> fp, pref |-> <<>>, official |-> FALSE],
@@ -362,7 +364,7 @@ MkSelf == (Family = "mk" /\ Variant = "ideal") =>
         IN v.ok /\ v.devs = {}
 \* pinned (FX12c, FX12b): the functions as coded are accepted without a deviation - must be REFUTED
 MkPinnedMerge == (Family = "mk" /\ Variant = "code") =>
-  LET v == Judged(MergeEvent(cfg, MergePanics(LogSrvs(cfg.servers), IF cfg.fb = "builtin" THEN BuiltinFb ELSE LogSrvs(cfg.fb))))
+  LET v == Judged(MergeEvent(cfg, MergePanics(LogSrvs(cfg.servers), IF cfg.fb.k = "builtin" THEN BuiltinFb ELSE LogSrvs(cfg.fb.s))))
   IN v.ok /\ v.devs \subseteq KnownDeviations
 MkPinnedGet == (Family = "mk" /\ Variant = "code") =>
   \A q \in DOMAIN QueryChars :
